@@ -19,8 +19,15 @@ REL = Fraction(1, 10 ** 12)
 
 
 class D:
+    """bare holder of `levels` (the only attribute the links read today)"""
     def __init__(self, levels):
         self.levels = levels
+
+
+def real_dist(levels):
+    """a real distribution object with the given number of levels (what the fitting code passes to a link)"""
+    from pygam.distributions import BinomialDist
+    return BinomialDist(levels=levels)
 
 
 def draw_mag(rng, lo, hi):
@@ -82,11 +89,17 @@ def run(res):
                     d, L = _ND(), 1.0
                     res.count('logit link on a distribution without levels')
                 else:
-                    d = D(L)
+                    d = real_dist(L)
                 mus, lps = gen_inputs(rng, cname, L, n)
                 for m in mus:
-                    v = float(lk.link(np.array([m]), d)[0])
-                    g = float(lk.gradient(np.array([m]), d)[0])
+                    try:
+                        v = float(lk.link(np.array([m]), d)[0])
+                        g = float(lk.gradient(np.array([m]), d)[0])
+                    except Exception as e:  # noqa
+                        res.violations.append(dict(what='link method raises for a mean inside the open domain', finding=None,
+                                                   input=dict(link=cname, levels=L, distribution=type(d).__name__, mu=m),
+                                                   observed='%s: %s' % (type(e).__name__, e), expected='link / gradient values'))
+                        continue
                     canc = (abs(math.log(m)) + abs(math.log(L - m))) if cname == 'LogitLink' else 0.0
                     for fn, val, extra in (('link', v, canc), ('gradient', g, 0.0)):
                         if not math.isfinite(val):
@@ -126,28 +139,43 @@ def run(res):
     with np.errstate(all='ignore'):
         for cname in LINKS:
             lk = getattr(PL, cname)()
-            for L in ([1.0] if cname != 'LogitLink' else [1.0, 5.0]):
-                d = D(L)
+            # every link is probed with real distribution objects of every family (a link must not depend on which family it is
+            # paired with, beyond `levels`), and with the bare levels holder
+            from pygam.distributions import PoissonDist, GammaDist, InvGaussDist
+            pairs = [(1.0, D(1.0)), (1.0, NormalDist()), (1.0, PoissonDist()), (1.0, GammaDist()), (1.0, InvGaussDist()), (1.0, BinomialDist(levels=1))]
+            if cname == 'LogitLink':
+                pairs += [(5.0, D(5.0)), (5.0, BinomialDist(levels=5))]
+            for L, d in pairs:
+                res.count('direct probe with %s' % type(d).__name__)
                 mus, lps = gen_inputs(rng, cname, L, 40)
                 mus = np.array(sorted(m for m in mus if 1e-30 < abs(m) < 1e30 and (cname != 'LogitLink' or (1e-4 * L < m < L * (1 - 1e-4)))))
                 if len(mus) == 0:
                     continue
-                back = lk.mu(lk.link(mus, d), d)
+                try:
+                    back = lk.mu(lk.link(mus, d), d)
+                    h = (np.minimum(np.abs(mus), L - mus) if cname == 'LogitLink' else np.abs(mus)) * 1e-6
+                    num = (lk.link(mus + h, d) - lk.link(mus - h, d)) / (2 * h)
+                    grad_impl = lk.gradient(mus, d)
+                except Exception as e:  # noqa
+                    if isinstance(d, D):
+                        continue  # the bare holder only carries `levels`; a link may legitimately ask a distribution for more
+                    res.violations.append(dict(what='link method raises for a mean inside the open domain', finding=None,
+                                               input=dict(link=cname, levels=L, distribution=type(d).__name__, mu=float(mus[0])),
+                                               observed='%s: %s' % (type(e).__name__, e), expected='link / mu / gradient values'))
+                    continue
                 bad = ~np.isclose(back, mus, rtol=1e-6, atol=0)
-                h = (np.minimum(np.abs(mus), L - mus) if cname == 'LogitLink' else np.abs(mus)) * 1e-6
-                num = (lk.link(mus + h, d) - lk.link(mus - h, d)) / (2 * h)
-                gbad = ~np.isclose(num, lk.gradient(mus, d), rtol=1e-3, atol=0)
+                gbad = ~np.isclose(num, grad_impl, rtol=1e-3, atol=0)
                 pos = mus[mus > 0]
                 lv = lk.link(pos, d)
                 dif = np.diff(lv)
                 inc = cname in ('IdentityLink', 'LogLink', 'LogitLink')
                 mbad = (dif < 0).any() if inc else (dif > 0).any()
-                res.case(('probe', cname, L))
+                res.case(('probe', cname, L, type(d).__name__))
                 if bad.any() or gbad.any() or mbad:
                     i = int(np.argmax(bad | gbad)) if (bad.any() or gbad.any()) else 0
                     res.violations.append(dict(what='link round trip / gradient / monotonicity fails on the implementation', finding=None,
-                                               input=dict(link=cname, levels=L, mu=float(mus[i])),
-                                               observed=dict(roundtrip=float(back[i]), gradient=float(lk.gradient(mus, d)[i]), numeric=float(num[i]), monotone=not mbad),
+                                               input=dict(link=cname, levels=L, distribution=type(d).__name__, mu=float(mus[i])),
+                                               observed=dict(roundtrip=float(back[i]), gradient=float(grad_impl[i]), numeric=float(num[i]), monotone=not mbad),
                                                expected='mu(link(m)) = m, gradient = d link / d mu, strictly monotone'))
     # ---- domain rejection through check_y and through fit (before any fitting happens)
     from pygam import LinearGAM, PoissonGAM, LogisticGAM, GammaGAM, InvGaussGAM, GAM
